@@ -65,7 +65,7 @@ theorem notNull_eq (b : Builder) : er (RefinementBuilder_NotNull b) = er (Refine
   · simp [hd]
   · simp only [hd]
     cases hw : b.wip <;>
-      simp [step1, stepNotNull, RefineGo.isKnown, RefineGo.isNull, refinementNullable_null, refinementNullable_setNull, Rfn.nullness, hw, setNull]
+      simp [step1, stepNotNull, RefineGo.isKnown, RefineGo.isNull, refinementNullable_null, refinementNullable_setNull, Rfn.nullness, hw, setNull] <;> ifs
 
 theorem null_eq (b : Builder) : er (RefinementBuilder_Null b) = er (Refine.step b .null) := by
   unfold RefinementBuilder_Null Refine.step
@@ -74,7 +74,7 @@ theorem null_eq (b : Builder) : er (RefinementBuilder_Null b) = er (Refine.step 
   · simp [hd]
   · simp only [hd]
     cases hw : b.wip <;>
-      simp [step1, stepNull, RefineGo.isKnown, RefineGo.isNull, refinementNullable_null, refinementNullable_setNull, Rfn.nullness, hw, setNull]
+      simp [step1, stepNull, RefineGo.isKnown, RefineGo.isNull, refinementNullable_null, refinementNullable_setNull, Rfn.nullness, hw, setNull] <;> ifs
 
 
 theorem gt_ofInt (a b : Int) : gt (Num.ofInt a) (Num.ofInt b) = decide (a > b) := by
